@@ -385,13 +385,22 @@ def run_ops(case):
         classes.add("raised:to_wire")
     else:
         if len(w) > 255:
-            # documented: to_wire() does not validate; decoding must refuse it
-            try:
-                dns.name.from_wire(w, 0)
-            except dns.exception.FormError:
-                classes.add("overlong-wire-refused")
-            else:
-                raise Violation("limits", "from_wire accepted a name longer than 255 octets", "from_wire-long")
+            # a relative name only reaches its full length when the origin is appended: the bytes
+            # path must refuse it like the file path does (D55), never hand out an undecodable name
+            raise Violation("limits", f"to_wire(origin=) returned a name of {len(w)} octets", "to_wire-long")
+        back, used = dns.name.from_wire(w, 0)
+        full = a.labels if a.is_absolute() else a.labels + o.labels
+        if back.labels != full or used != len(w):
+            raise Violation("wire", f"to_wire(origin=) does not decode to the derelativized name: {back.labels!r} vs {full!r}", "to_wire-origin")
+    for label, fn in (("to_digestable", lambda: a.to_digestable(o)),
+                      ("to_wire-file", lambda: (lambda f: (a.to_wire(f, None, o), f.getvalue())[1])(__import__("io").BytesIO()))):
+        try:
+            w2 = fn()
+        except dns.exception.DNSException:
+            classes.add("raised:" + label)
+        else:
+            if len(w2) > 255:
+                raise Violation("limits", f"{label} with an origin produced a name of {len(w2)} octets", label + "-long")
     if near[0]:
         classes.add("near-limit")
     return {"nontrivial": near[0] or any(c.startswith("raised") for c in classes), "classes": sorted(classes)}
@@ -588,7 +597,7 @@ def parts(tier):
         Part("ctx", run_ctx, strategy=ctx_cases(), n={"quick": 4000, "thorough": 120000},
              require={"pointer": 300, "near-0x3fff": 100}),
         Part("ops", run_ops, strategy=ops_cases(), n={"quick": 8000, "thorough": 200000},
-             require={"near-limit": 100, "invalid-raises": 50, "raised:successor": 1}),
+             require={"near-limit": 100, "invalid-raises": 50, "raised:successor": 1, "raised:to_wire": 100}),
         Part("decode", run_decode, strategy=decode_cases(), n={"quick": 16000, "thorough": 400000}, case_timeout_s=3.0,
              require={"accepted": 500, "rejected": 500, "pointer-followed": 300, "pointer-chain": 30, "ptr-overlap": 20}),
     ]
